@@ -10,14 +10,15 @@ LEVEL = 'fault_enumeration'
 RULE = (
     'random programs whose child tasks have payloads over all primitives (sleeping, inside a '
     'lock, waiting on a queue/channel, acquiring/holding/releasing a borrow, nested scopes with '
-    'children, inside until, pipe transfers, tickers, finishing immediately, delayed start) '
+    'children, inside until, pipe transfers, tickers, finishing immediately, delayed start, bodies '
+    'with an asynchronous clean-up that takes time and can be struck again) '
     'with 0-4 awaiters attached before/at/after completion and program-level cancels; '
     'cancel-point enumeration: cancel(token) of a victim injected at activation boundary n '
     '(quick: sampled n; thorough: every n in [1, N+1] x 3 victims, plus double cancels with '
     'different tokens). Monitors: status of every task sampled at every boundary (forward-only '
     'automaton); every awaiter outcome recorded (identity); cancel before first activation => '
-    'payload never logs; cancel while suspended => done by the end of that time step and the '
-    'cancellation observed in that step; TaskCancelled.subject/token; a plain Scope is never '
+    'payload never logs; cancel while suspended => by the end of that time step the task is done '
+    'or (asynchronous clean-up) the cancellation has been raised in it in that step; TaskCancelled.subject/token; a plain Scope is never '
     'aborted without a failing child. non-trivial = >= 1 cancel judged; distinct = trace'
 )
 LEVEL_TEXT = (
@@ -32,13 +33,14 @@ ASSUMPTIONS = [
     'payloads never swallow CancelTask (valid programs only)',
 ]
 REQUIRED_STATS = ['c06_samples', 'c06_cancels_judged', 'c06_cancel_before_start',
+                  'graceful_cleanups', 'c06_cancel_seen_cleanup_pending',
                   'c06_cancel_running', 'c06_awaits', 'injected']
 
 WEIGHTS = {
     'scope': 14, 'until': 5, 'spawn': 4, 'raise': 1.2, 'cancel': 8, 'await_task': 12,
     'wait': 10, 'setflag': 3, 'settracked': 2, 'lock': 4, 'put': 3, 'get': 3, 'iter': 1,
     'close': 0.5, 'borrow': 4, 'resource': 1, 'transfer': 3, 'ticker': 2, 'collect': 2,
-    'first': 1,
+    'first': 1, 'graceful': 6,
 }
 
 
